@@ -159,23 +159,23 @@ Proof.
     destruct (find_hap target hs) as [h|] eqn:TH.
     + cbn [bind]. destruct ids as [l|].
       * set (loaded := filter _ gs).
-        destruct (existsb _ loaded); [discriminate|]. cbn [bind].
+        destruct (existsb _ loaded); [discriminate|]. destruct (target_not_loaded _ _ _ _ _); [discriminate|]. cbn [bind].
         destruct (hap_dosage loaded keep h) as [td|e]; cbn [bind]; [|discriminate].
         intro H. inversion H; subst. rewrite map_map. cbn [fst]. change (fun x : gvar => gv_id x) with gv_id.
         apply listed_by_ids. intros id Hid. apply find_var_filter.
         rewrite memZ_app. apply orb_true_iff. left. apply memZ_In. exact Hid.
-      * destruct (existsb _ gs); [discriminate|]. cbn [bind].
+      * destruct (existsb _ gs); [discriminate|]. destruct (target_not_loaded _ _ _ _ _); [discriminate|]. cbn [bind].
         destruct (hap_dosage gs keep h) as [td|e]; cbn [bind]; [|discriminate].
         intro H. inversion H; subst. rewrite map_map. reflexivity.
     + destruct ids as [l|]; cbn [bind].
       * set (loaded := filter _ gs).
-        destruct (existsb _ loaded); [discriminate|]. cbn [bind].
+        destruct (existsb _ loaded); [discriminate|]. destruct (target_not_loaded _ _ _ _ _); [discriminate|]. cbn [bind].
         destruct (find_var target loaded) as [g|]; cbn [bind]; [|discriminate].
         intro H. inversion H; subst. rewrite map_map. cbn [fst]. change (fun x : gvar => gv_id x) with gv_id.
         unfold loaded, var_ids.
         rewrite (map_filter_comm gv_id (fun id => memZ id (target :: l ++ []))).
         apply filter_ext. intro id. rewrite memZ_cons, app_nil_r. apply orb_comm.
-      * destruct (existsb _ gs); [discriminate|]. cbn [bind].
+      * destruct (existsb _ gs); [discriminate|]. destruct (target_not_loaded _ _ _ _ _); [discriminate|]. cbn [bind].
         destruct (find_var target gs) as [g|]; cbn [bind]; [|discriminate].
         intro H. inversion H; subst. rewrite map_map. cbn [fst]. change (fun x : gvar => gv_id x) with gv_id.
         symmetry. apply filter_all. reflexivity.
@@ -183,7 +183,7 @@ Proof.
     set (hflt := option_map (fun l => target :: l) ids). set (hs := load_haps hflt lines).
     destruct (find_hap target hs) as [h|] eqn:TH; cbn [bind].
     + set (loaded := filter _ gs).
-      destruct (existsb _ loaded); [discriminate|].
+      destruct (existsb _ loaded); [discriminate|]. destruct (target_not_loaded _ _ _ _ _); [discriminate|].
       destruct (map_res _ (remove_hap target hs)) as [hd|e] eqn:MR; cbn [bind]; [|discriminate].
       destruct (hap_dosage loaded keep h) as [td|e]; cbn [bind]; [|discriminate].
       intro H. inversion H; subst. rewrite map_map. cbn [fst].
@@ -192,7 +192,7 @@ Proof.
       apply filter_ext. intro id. unfold hflt. destruct ids as [l|]; cbn [option_map]; [|reflexivity].
       rewrite memZ_cons. destruct (id =? target), (memZ id l); reflexivity.
     + set (loaded := filter _ gs).
-      destruct (existsb _ loaded); [discriminate|].
+      destruct (existsb _ loaded); [discriminate|]. destruct (target_not_loaded _ _ _ _ _); [discriminate|].
       destruct (map_res _ hs) as [hd|e] eqn:MR; cbn [bind]; [|discriminate].
       destruct (find_var target loaded) as [g|]; cbn [bind]; [|discriminate].
       intro H. inversion H; subst. rewrite map_map. cbn [fst].
@@ -337,6 +337,15 @@ Qed.
 Lemma find_var_present v gs : memZ v (var_ids gs) = true -> exists g, find_var v gs = Some g.
 Proof. rewrite find_var_mem. destruct (find_var v gs) as [g|]; [eexists; reflexivity|discriminate]. Qed.
 
+Lemma tnl_some legacy h vset t loaded : target_not_loaded legacy (Some h) vset t loaded = false.
+Proof. destruct legacy; reflexivity. Qed.
+
+Lemma tnl_found legacy th vset t loaded g :
+  find_var t loaded = Some g -> target_not_loaded legacy th vset t loaded = false.
+Proof.
+  intro E. unfold target_not_loaded. rewrite E. destruct legacy, th, vset; cbn [negb andb]; rewrite ?andb_false_r; reflexivity.
+Qed.
+
 Lemma ld_modes_total_lemma target gs lines keep ids fg :
   inputs_ok target gs lines keep = true ->
   exists rows, calc_ld false target gs lines keep ids fg = Ok rows.
@@ -348,26 +357,29 @@ Proof.
     rewrite th_mem in TG. set (hs := load_haps None lines) in *.
     destruct (find_hap target hs) as [h|] eqn:TH.
     + destruct (find_hap_some _ _ _ TH) as [Hh _]. cbn [bind]. destruct ids as [l|].
-      * rewrite no_bad_in_filter by exact NB. cbn [bind].
+      * rewrite no_bad_in_filter by exact NB. rewrite tnl_some. cbn [bind].
         destruct (hap_dosage_ok gs (filter (fun g => memZ (gv_id g) (l ++ map fst (h_vars h))) gs) keep h (HO h Hh)) as [d E].
         { intros va Hva. apply find_var_filter. rewrite memZ_app. apply orb_true_iff. right.
           apply memZ_In. apply in_map. exact Hva. }
         rewrite E. cbn [bind]. eexists. reflexivity.
-      * rewrite no_bad_all by exact NB. cbn [bind].
+      * rewrite no_bad_all by exact NB. rewrite tnl_some. cbn [bind].
         destruct (hap_dosage_ok gs gs keep h (HO h Hh)) as [d E]; [reflexivity|].
         rewrite E. cbn [bind]. eexists. reflexivity.
     + cbn [orb] in TG. destruct (find_var_present _ _ TG) as [g Eg]. destruct ids as [l|]; cbn [bind].
-      * rewrite no_bad_in_filter by exact NB. cbn [bind].
+      * rewrite no_bad_in_filter by exact NB.
+        rewrite (tnl_found false None _ target _ g)
+          by (rewrite find_var_filter by (rewrite memZ_cons, Z.eqb_refl; reflexivity); exact Eg).
+        cbn [bind].
         rewrite find_var_filter by (rewrite memZ_cons, Z.eqb_refl; reflexivity).
         rewrite Eg. cbn [bind]. eexists. reflexivity.
-      * rewrite no_bad_all by exact NB. cbn [bind]. rewrite Eg. cbn [bind]. eexists. reflexivity.
+      * rewrite no_bad_all by exact NB. rewrite (tnl_found false None None target gs g Eg). cbn [bind]. rewrite Eg. cbn [bind]. eexists. reflexivity.
   - (* .hap output *)
     set (hflt := option_map (fun l => target :: l) ids). set (hs := load_haps hflt lines).
     assert (forall h, In h hs -> hap_ok gs h = true) as HO'
       by (intros h Hh; apply HO; eapply load_haps_incl; exact Hh).
     destruct (find_hap target hs) as [h|] eqn:TH; cbn [bind].
     + destruct (find_hap_some _ _ _ TH) as [Hh _].
-      rewrite no_bad_in_filter by exact NB.
+      rewrite no_bad_in_filter by exact NB. rewrite tnl_some.
       set (loaded := filter _ gs).
       assert (forall h', In h' hs -> exists d, hap_dosage loaded keep h' = Ok d) as HD.
       { intros h' Hh'. apply (hap_dosage_ok gs); [apply HO'; exact Hh'|].
@@ -389,6 +401,8 @@ Proof.
         rewrite Eh, Z.eqb_refl in K. discriminate. }
       destruct (find_var_present _ _ TV) as [g Eg].
       rewrite no_bad_in_filter by exact NB.
+      rewrite (tnl_found false None _ target _ g)
+        by (rewrite find_var_filter by (rewrite memZ_cons, Z.eqb_refl; reflexivity); exact Eg).
       set (loaded := filter _ gs).
       assert (forall h', In h' hs -> exists d, hap_dosage loaded keep h' = Ok d) as HD.
       { intros h' Hh'. apply (hap_dosage_ok gs); [apply HO'; exact Hh'|].
@@ -546,7 +560,7 @@ Proof.
     destruct (find_hap target hs) as [h|] eqn:TH.
     + cbn [bind]. destruct ids as [l|].
       * set (loaded := filter _ gs).
-        destruct (existsb _ loaded); [discriminate|]. cbn [bind].
+        destruct (existsb _ loaded); [discriminate|]. destruct (target_not_loaded _ _ _ _ _); [discriminate|]. cbn [bind].
         destruct (hap_dosage loaded keep h) as [td|e] eqn:HD; cbn [bind]; [|discriminate].
         intro H. inversion H; subst; clear H.
         assert (forall id, memZ id (l ++ map fst (h_vars h)) = true -> find_var id loaded = find_var id gs) as FV
@@ -561,7 +575,7 @@ Proof.
         rewrite FV in E by (rewrite memZ_app; apply orb_true_iff; left; apply memZ_In, Hid).
         exists (var_dosage keep g). cbn [fst snd]. split; [|reflexivity].
         unfold dosage_spec. rewrite (find_var_id _ _ _ E), E. reflexivity.
-      * destruct (existsb _ gs); [discriminate|]. cbn [bind].
+      * destruct (existsb _ gs); [discriminate|]. destruct (target_not_loaded _ _ _ _ _); [discriminate|]. cbn [bind].
         destruct (hap_dosage gs keep h) as [td|e] eqn:HD; cbn [bind]; [|discriminate].
         intro H. inversion H; subst; clear H.
         destruct (target_hap_spec gs lines keep target h hs td None NDH eq_refl TH HD) as [M S].
@@ -572,7 +586,7 @@ Proof.
     + pose proof (th_mem target lines) as M. fold hs in M. rewrite TH in M. rewrite M. cbn [negb].
       destruct ids as [l|]; cbn [bind].
       * set (loaded := filter _ gs).
-        destruct (existsb _ loaded); [discriminate|]. cbn [bind].
+        destruct (existsb _ loaded); [discriminate|]. destruct (target_not_loaded _ _ _ _ _); [discriminate|]. cbn [bind].
         destruct (find_var target loaded) as [g|] eqn:E; cbn [bind]; [|discriminate].
         intro H. inversion H; subst; clear H.
         unfold loaded in E. rewrite find_var_filter in E by (rewrite memZ_cons, Z.eqb_refl; reflexivity).
@@ -580,7 +594,7 @@ Proof.
         intros r Hr. apply in_map_iff in Hr. destruct Hr as (g' & <- & Hg). apply filter_In in Hg. destruct Hg as [Hg _].
         exists (var_dosage keep g'). cbn [fst snd]. split; [|reflexivity].
         unfold dosage_spec. rewrite (find_var_nodup _ _ NDV Hg). reflexivity.
-      * destruct (existsb _ gs); [discriminate|]. cbn [bind].
+      * destruct (existsb _ gs); [discriminate|]. destruct (target_not_loaded _ _ _ _ _); [discriminate|]. cbn [bind].
         destruct (find_var target gs) as [g|] eqn:E; cbn [bind]; [|discriminate].
         intro H. inversion H; subst; clear H.
         exists (var_dosage keep g). split; [unfold dosage_spec; rewrite E; reflexivity|].
@@ -605,7 +619,7 @@ Proof.
       unfold dosage_spec. rewrite E1, (find_hap_nodup _ _ NDH Hh0), E2. reflexivity. }
     destruct (find_hap target hs) as [h|] eqn:TH; cbn [bind].
     + set (loaded := filter _ gs).
-      destruct (existsb _ loaded); [discriminate|].
+      destruct (existsb _ loaded); [discriminate|]. destruct (target_not_loaded _ _ _ _ _); [discriminate|].
       destruct (map_res _ (remove_hap target hs)) as [hd|e] eqn:MR; cbn [bind]; [|discriminate].
       destruct (hap_dosage loaded keep h) as [td|e] eqn:HD; cbn [bind]; [|discriminate].
       intro H. inversion H; subst; clear H.
@@ -621,7 +635,7 @@ Proof.
       intros h' Hh'. unfold remove_hap in Hh'. apply filter_In in Hh'. tauto.
     + rewrite (th_none_not_hap _ _ _ TH). cbn [negb].
       set (loaded := filter _ gs).
-      destruct (existsb _ loaded); [discriminate|].
+      destruct (existsb _ loaded); [discriminate|]. destruct (target_not_loaded _ _ _ _ _); [discriminate|].
       destruct (map_res _ hs) as [hd|e] eqn:MR; cbn [bind]; [|discriminate].
       destruct (find_var target loaded) as [g|] eqn:E; cbn [bind]; [|discriminate].
       intro H. inversion H; subst; clear H.
